@@ -18,6 +18,8 @@ import (
 	"path/filepath"
 	"regexp"
 	"runtime"
+	"strconv"
+	"strings"
 
 	"github.com/bluekeyes/go-gitdiff/gitdiff"
 	"github.com/rogpeppe/go-internal/lockedfile"
@@ -174,12 +176,32 @@ func checkVersion(linkerPath, goVersion, patchesVer string) (bool, error) {
 		return false, err
 	}
 
-	return string(version) == getCurrentVersion(goVersion, patchesVer), nil
+	// The first line identifies the Go version and the patches. The second line,
+	// absent if the file was written by an older garble, records the size of the
+	// built linker, so that a binary which was truncated or only partially
+	// written, e.g. by an interrupted build, is rebuilt rather than executed.
+	first, rest, _ := strings.Cut(string(version), "\n")
+	if first+"\n" != getCurrentVersion(goVersion, patchesVer) {
+		return false, nil
+	}
+	if rest == "" {
+		return true, nil
+	}
+	stat, err := os.Stat(linkerPath)
+	if err != nil {
+		return false, nil
+	}
+	return rest == strconv.FormatInt(stat.Size(), 10)+"\n", nil
 }
 
 func writeVersion(linkerPath, goVersion, patchesVer string) error {
+	stat, err := os.Stat(linkerPath)
+	if err != nil {
+		return err
+	}
 	versionPath := linkerPath + versionExt
-	return os.WriteFile(versionPath, []byte(getCurrentVersion(goVersion, patchesVer)), 0o777)
+	content := getCurrentVersion(goVersion, patchesVer) + strconv.FormatInt(stat.Size(), 10) + "\n"
+	return os.WriteFile(versionPath, []byte(content), 0o777)
 }
 
 func buildLinker(goRoot, workingDir string, overlay map[string]string, outputLinkPath string) error {
@@ -257,6 +279,12 @@ func PatchLinker(goRoot, goVersion, cacheDir, tempDir string) (string, func(), e
 
 	overlay, err := applyPatches(srcDir, workingDir, modFiles, patches)
 	if err != nil {
+		return "", nil, err
+	}
+	// Remove any stale linker first; the go command refuses to overwrite a file
+	// it does not recognize as an object file, and it considers a truncated binary
+	// whose build ID is still readable to be up to date.
+	if err := os.Remove(outputLinkPath); err != nil && !os.IsNotExist(err) {
 		return "", nil, err
 	}
 	if err := buildLinker(goRoot, workingDir, overlay, outputLinkPath); err != nil {
